@@ -117,6 +117,13 @@ def r_position_usage(ck: Checker) -> None:
         child_ = anc if isinstance(anc, ast.stmt) else child_
     first_ = lp.body[0] is child_ or all(isinstance(s, (ast.Assign, ast.AnnAssign)) for s in lp.body[: [i for i, s in enumerate(lp.body) if s is child_][0]]) if any(s is child_ for s in lp.body) else False  # type: ignore[union-attr]
     okp = plain and first_ and len(conds_) == 1 and (same(conds_[0], f"{arg} != self._anon") or same(conds_[0], f"self._anon != {arg}"))
+    if not okp:
+        # the same decision in another spelling (`if arg == self._anon: continue`): whenever the argument is not `_` the
+        # iteration records the position, whatever else is tested on the way
+        oks, ns = every_iteration_reaches(ck, func, lp, site, Pins.of(facts={f"{arg} != self._anon": True, f"{arg} == self._anon": False}))  # type: ignore[arg-type]
+        never = not ck.interp(func, Pins.of(facts={f"{arg} != self._anon": False, f"{arg} == self._anon": True})).reachable(site)
+        okp = oks and ns > 0 and never
+        conds_.append(f"every iteration with {arg} != self._anon records: {okp}")
     ck.add("a position whose argument is not the anonymous variable itself is recorded as used", okp and unparse(site.args[0]) == idx, func, site, f"the recording of `{unparse(site.args[0])}` is guarded by {conds_} only: {okp}",
            "`holds(open(_))` still matches only atoms whose argument is an `open(..)` term: treating a term that contains only `_` as unused drops the position and with it the pattern")
     outer = enclosing_loop(func, lp)
@@ -363,8 +370,11 @@ def r_convert(ck: Checker) -> None:
     binds = [cands[0][0]]
     ck.need(len(binds) == 1 and kwarg(binds[0], keep) is not None, "replace_rest is applied with the use-site variables bound")
     keepname = unparse(kwarg(binds[0], keep))  # type: ignore[arg-type]
-    ups = [c for c in attr_calls(func, "update") if unparse(c.func.value) == keepname]  # type: ignore[attr-defined]
+    from .util import inline_result_names
+    keepnames = inline_result_names(func, keepname)  # a helper copied in as `with .. as old_vars: ...; return variables`
+    ups = [c for c in attr_calls(func, "update") if unparse(c.func.value) in keepnames]  # type: ignore[attr-defined]
     init = single_def(func, keepname) if not ups else None
+    arg_names = {args} | {n.targets[0].id for n in find_nodes(func.node, lambda n: isinstance(n, ast.Assign)) if len(n.targets) == 1 and isinstance(n.targets[0], ast.Name) and isinstance(n.value, ast.Name) and n.value.id == args}  # type: ignore[attr-defined]
     good = False
     detail = ""
     for c in ups:
@@ -374,7 +384,7 @@ def r_convert(ck: Checker) -> None:
             lp = enclosing_loop(func, c)
             okk, n = every_iteration_reaches(ck, func, lp, c, None) if lp is not None else (False, 0)
             detail = f"`{fmt(c)}` for every element of {sorted(org)}"
-            good = org == {f"{args}[*]"} and okk and n > 0
+            good = len(org) == 1 and next(iter(org)) in {f"{a_}[*]" for a_ in arg_names} and okk and n > 0
     if init is not None:
         detail = f"{keepname} = `{unparse(init)}`"
         good = same(unparse(init), f"set(collect_ast({args}, 'Variable'))")
